@@ -30,12 +30,14 @@ int xv_poll_fd; int xv_poll_timeout; short xv_poll_events; int xv_poll_rc;   /* 
 
 
 /* ---- part TC (tconnect.c) ------------------------------------------------------------------------------------------
- * The track whose attempts are logged (bound by `requires(xv_trk == track)`; never assigned by code or stubs). */
-void *xv_trk;
+ * The track whose attempt is being logged is xv_pre.trk: the struct track that CONTAINS the struct tcp_opts handed to the last
+ * tcp_opts_effectuate (every attempt begins with tcp_opts_effectuate(&track->tcp_opts, fd)); bind() and connect() read its
+ * ip_idx to know which address the attempt is on. */
 /* ATTEMPT LOG for ONE arbitrary address index xv_ai (never assigned => every statement about it holds for all indices).
  * An "attempt on address i" is everything done while track->ip_idx == i: tcp_opts_effectuate, [bind], connect.  A step that
  * fails (effectuate < 0, bind < 0, connect < 0 with errno != EINPROGRESS) is a FAILED attempt with that errno. */
 int xv_ai;
+const void *xv_g_ips;        /* ghost constant: bound to a pointer value on entry by a requires clause */
 /* The ghost variables below are FIELDS of sub-structs of ONE object xv_tc.  DFCC's write-set inclusion check is quadratic in
  * the number of assigns targets (caller x callee, and callee = caller for the recursive track_connect_next): 70 separate
  * globals made that job run 6 minutes; now the function under proof lists `xv_tc`, a callee contract the sub-structs it
@@ -84,13 +86,14 @@ struct xv_conn_s {
 #define xv_unregistered xv_conn.unregistered
 /* order of the steps of one attempt: descriptor on which the options snapshot was applied / the local address was bound
  * since the attempt began (-1: none); reset by every event that ends an attempt */
-struct xv_pre_s { int eff_fd, bind_fd;
+struct xv_pre_s { int eff_fd, bind_fd; void *trk;
     _Bool top;   /* proof device of job track_connect_next (see contracts/dnstc.h, XV_TCN_I0): set by the harness, cleared by the first
                     tcp_opts_effectuate, i.e. before any recursive call */
 };
 #define xv_pre_eff_fd xv_pre.eff_fd
 #define xv_pre_bind_fd xv_pre.bind_fd
 #define xv_tcn_top xv_pre.top
+#define xv_trk xv_pre.trk
 /* other modules, last call */
 struct xv_eff_s { unsigned n; int fd, rc; const void *opts; };                      /* tcp_opts_effectuate                */
 #define xv_eff_n xv_eff.n
@@ -122,20 +125,23 @@ struct xv_est_s { unsigned n; int fd, rc, err; };                               
 #define xv_est_errno xv_est.err
 
 struct xv_tc_s {
-    struct xv_arow_s arow; struct xv_fail_s fail; struct xv_conn_s conn; struct xv_pre_s pre;
-    struct xv_eff_s eff; struct xv_sa_s sa; struct xv_xp_s xp; struct xv_tm_s tm; struct xv_est_s est;
-    /* last connect()/bind() of the kernel model (env/dnstc_env.h) */
-    struct xv_kc_s { unsigned connect_calls, connect_ok_calls; int connect_fd; unsigned bind_calls, bind_ok_calls; int bind_fd; } kc;
+    /* .att: everything the functions of a TRACK (and the stubs below them) write: the assigns target of track_* */
+    struct xv_att_s {
+        struct xv_arow_s arow; struct xv_fail_s fail; struct xv_conn_s conn; struct xv_pre_s pre;
+        struct xv_eff_s eff; struct xv_sa_s sa; struct xv_xp_s xp; struct xv_tm_s tm; struct xv_est_s est;
+        /* last connect()/bind() of the kernel model (env/dnstc_env.h) */
+        struct xv_kc_s { unsigned connect_calls, connect_ok_calls; int connect_fd; unsigned bind_calls, bind_ok_calls; int bind_fd; } kc;
+    } att;
 } xv_tc;
-#define xv_arow xv_tc.arow
-#define xv_fail xv_tc.fail
-#define xv_conn xv_tc.conn
-#define xv_pre xv_tc.pre
-#define xv_eff xv_tc.eff
-#define xv_sa xv_tc.sa
-#define xv_xp xv_tc.xp
-#define xv_tm xv_tc.tm
-#define xv_est xv_tc.est
-#define xv_kc xv_tc.kc
+#define xv_arow xv_tc.att.arow
+#define xv_fail xv_tc.att.fail
+#define xv_conn xv_tc.att.conn
+#define xv_pre xv_tc.att.pre
+#define xv_eff xv_tc.att.eff
+#define xv_sa xv_tc.att.sa
+#define xv_xp xv_tc.att.xp
+#define xv_tm xv_tc.att.tm
+#define xv_est xv_tc.att.est
+#define xv_kc xv_tc.att.kc
 
 #endif
